@@ -213,7 +213,131 @@ func genC17(g *Gen) error {
 		return err
 	}
 	g.StrList("returns_seekEntry", r)
+	if err := c17Order(g, dir); err != nil {
+		return err
+	}
 	g.Footer()
+	return nil
+}
+
+// c17Calls lists, in source order, the calls below node whose callee text is one of names
+// (exact) — with the argument at position argPos appended when argPos >= 0.
+func c17Calls(g *Gen, node ast.Node, argPos int, names ...string) []string {
+	var out []string
+	ast.Inspect(node, func(n ast.Node) bool {
+		ce, ok := n.(*ast.CallExpr)
+		if !ok {
+			return true
+		}
+		f := g.Src(ce.Fun)
+		for _, nm := range names {
+			if f == nm {
+				if argPos >= 0 && argPos < len(ce.Args) {
+					f += "(" + g.Src(ce.Args[argPos]) + ")"
+				}
+				out = append(out, f)
+			}
+		}
+		return true
+	})
+	return out
+}
+
+// c17Order regenerates the ORDER in which the store issues its file-system mutations: the facts
+// the mutation lists of OG/C17/Crash.lean (saveMuts, rotateMuts, conflictMuts, …) transcribe.
+func c17Order(g *Gen, dir string) error {
+	g.P("/-! the order of the file-system mutations (OG/C17/Crash.lean transcribes it) -/")
+	// Save: entries, hard state, snapshot
+	fd, err := g.Func(dir+"storage.go", "RaftDiskStorage.Save")
+	if err != nil {
+		return err
+	}
+	g.StrList("order_Save", c17Calls(g, fd.Body, -1, "rds.entryLog.AddEntries", "rds.meta.StoreHardState", "rds.meta.StoreSnapshot"))
+	// AddEntries: the write loop (rotate?, payload, slot) and the conflict branch into a rotated file
+	fd, err = g.Func(dir+"entrylog.go", "entryLog.AddEntries")
+	if err != nil {
+		return err
+	}
+	var loop *ast.RangeStmt
+	var delLoop ast.Stmt
+	var delHdr string
+	var rotBranch *ast.BlockStmt
+	ast.Inspect(fd.Body, func(n ast.Node) bool {
+		switch x := n.(type) {
+		case *ast.RangeStmt:
+			if g.Src(x.X) == "entries" {
+				loop = x
+			}
+			if g.Src(x.X) == "extra" {
+				delLoop, delHdr = x, "range "+g.Src(x.X)
+			}
+		case *ast.ForStmt:
+			if len(c17Calls(g, x.Body, -1, "ef.delete")) > 0 {
+				delLoop = x
+				delHdr = g.Src(x.Init) + "; " + g.Src(x.Cond) + "; " + g.Src(x.Post)
+			}
+		case *ast.IfStmt:
+			if g.Src(x.Cond) == "firstIdx == -1" {
+				if b, ok := x.Else.(*ast.BlockStmt); ok {
+					rotBranch = b
+				}
+			}
+		}
+		return true
+	})
+	if loop == nil || delLoop == nil || rotBranch == nil {
+		return fmt.Errorf("AddEntries: write loop / deletion loop / rotated-file branch not found")
+	}
+	g.StrList("order_AddEntriesLoop", c17Calls(g, loop.Body, -1, "l.rotate", "l.current.entry.WriteSlice", "l.current.entry.WriteAt"))
+	g.StrList("order_conflictRotated", c17Calls(g, rotBranch, -1, "ef.delete", "l.current.entry.WriteSlice", "l.current.entry.setCurrent"))
+	g.P("/-- header of the loop that deletes the later files: which end it starts from -/")
+	g.P("def order_conflictDeleteLoop : String := %s", leanStr(delHdr))
+	// rotate: truncate, sync, create
+	fd, err = g.Func(dir+"entrylog.go", "entryLog.rotate")
+	if err != nil {
+		return err
+	}
+	g.StrList("order_rotate", c17Calls(g, fd.Body, -1, "l.current.entry.Truncate", "l.current.entry.TrySync", "openLogFile"))
+	// deleteBefore: the loop over the files before the one that holds the index
+	fd, err = g.Func(dir+"entrylog.go", "entryLog.deleteBefore")
+	if err != nil {
+		return err
+	}
+	var dbHdr string
+	ast.Inspect(fd.Body, func(n ast.Node) bool {
+		if x, ok := n.(*ast.RangeStmt); ok && len(c17Calls(g, x.Body, -1, "ef.delete")) > 0 {
+			dbHdr = "range " + g.Src(x.X)
+		}
+		return true
+	})
+	g.P("def order_deleteBeforeLoop : String := %s", leanStr(dbHdr))
+	// the file wrappers: how many writes a WriteSlice / WriteAt issues, and with what
+	for _, w := range [][3]string{{"file_v2.go", "FileWrapV2.WriteSlice", "writes_WriteSliceV2"}, {"file.go", "FileWrap.WriteSlice", "writes_WriteSliceV1"},
+		{"file_v2.go", "FileWrapV2.WriteAt", "writes_WriteAtV2"}, {"file.go", "FileWrap.WriteAt", "writes_WriteAtV1"}} {
+		fd, err = g.Func(dir+w[0], w[1])
+		if err != nil {
+			return err
+		}
+		g.StrList(w[2], c17Calls(g, fd.Body, 0, "fw.fd.Write", "fw.fd.Seek"))
+	}
+	// creation of a file: one write of maxSz zero bytes
+	fd, err = g.Func(dir+"file_v2.go", "OpenFileV2")
+	if err != nil {
+		return err
+	}
+	g.StrList("order_OpenFileV2", c17Calls(g, fd.Body, 0, "fileops.OpenFile", "fw.Write", "fw.TrySync"))
+	// meta: hard state and snapshot
+	fd, err = g.Func(dir+"meta.go", "metaFile.StoreHardState")
+	if err != nil {
+		return err
+	}
+	g.StrList("order_StoreHardState", c17Calls(g, fd.Body, 2, "m.meta.WriteSlice", "m.meta.WriteAt", "m.SetUint"))
+	fd, err = g.Func(dir+"meta.go", "metaFile.StoreSnapshot")
+	if err != nil {
+		return err
+	}
+	g.StrList("order_StoreSnapshot", append(c17Calls(g, fd.Body, 1, "m.meta.WriteSlice", "m.meta.WriteAt", "m.SetUint"),
+		c17Calls(g, fd.Body, 1, "binary.BigEndian.AppendUint64", "binary.BigEndian.AppendUint32", "append")...))
 	return nil
 }
 
